@@ -1016,4 +1016,209 @@ def exEpwFlags : Bool × Bool :=
 example : exEpwFlags = (false, true) ∧
     memberVals exEpw0 0 = some (0, [some [41, 50], some [32, 23]]) := by decide +kernel
 
+/-! ### Round 3: the history machine with outcomes — refused steps, reads, "asked again" -/
+
+/-- Outcome of one step: the new state, or the error with which the call was refused (`index`: the step
+    addresses an object that does not exist).  An export that reports its failure after having restored
+    the object (`.ok (false, h')` of `epwToFileString` / `epwToWea`) counts as answered here: that its
+    state `h'` reads like the old one is `C14_epw_to_file_string_restores` / `C14_epw_to_wea_restores`. -/
+def stepExec (st : St) : Step → Except Err St
+  | .derive i op =>
+    match st.live[i]? with
+    | none => .error .index
+    | some c =>
+      match derive .fixed st.h c op with
+      | .ok (h', r) => .ok ⟨h', st.live ++ [r]⟩
+      | .error e => .error e
+  | .mutate i op =>
+    match st.live[i]? with
+    | none => .error .index
+    | some c =>
+      match mutate .fixed st.h c op with
+      | .ok h' => .ok ⟨h', st.live⟩
+      | .error e => .error e
+  | .windrose i j =>
+    match st.live[i]?, st.live[j]? with
+    | some d, some a =>
+      match windrose .fixed st.h d a with
+      | .ok (h', rd, ra) => .ok ⟨h', st.live ++ [rd] ++ [ra]⟩
+      | .error e => .error e
+    | _, _ => .error .index
+  | .build cls mt vd dt u ap md dts vals =>
+    .ok ⟨(build st.h cls mt vd dt u ap md dts vals).1,
+      st.live ++ [(build st.h cls mt vd dt u ap md dts vals).2]⟩
+  | .buildFrom cls mt vd dt u ap md dts i =>
+    match st.live[i]? with
+    | none => .error .index
+    | some l =>
+      match buildFrom st.h cls mt vd dt u ap md dts l with
+      | .ok (h', r) => .ok ⟨h', st.live ++ [r]⟩
+      | .error e => .error e
+  | .newList v => .ok ⟨(newList st.h v).1, st.live ++ [(newList st.h v).2]⟩
+  | .newArgs l => .ok ⟨(newArgs st.h l).1, st.live ++ [(newArgs st.h l).2]⟩
+  | .listMut i op =>
+    match st.live[i]? with
+    | none => .error .index
+    | some c =>
+      match mutList st.h c op with
+      | .ok h' => .ok ⟨h', st.live⟩
+      | .error e => .error e
+  | .weaNew loc tags ap dts dni dhi cont =>
+    match weaNew st.h loc tags ap dts dni dhi cont with
+    | .ok (h', r) => .ok ⟨h', st.live ++ [r]⟩
+    | .error e => .error e
+  | .weaDup i =>
+    match st.live[i]? with
+    | none => .error .index
+    | some c =>
+      match weaDup st.h c with
+      | .ok (h', r) => .ok ⟨h', st.live ++ [r]⟩
+      | .error e => .error e
+  | .weaFilter i op =>
+    match st.live[i]? with
+    | none => .error .index
+    | some c =>
+      match weaFilter st.h c op with
+      | .ok (h', r) => .ok ⟨h', st.live ++ [r]⟩
+      | .error e => .error e
+  | .weaDerived i dt sh vals =>
+    match st.live[i]? with
+    | none => .error .index
+    | some c =>
+      match weaDerived st.h c dt sh vals with
+      | .ok (h', r) => .ok ⟨h', st.live ++ [r]⟩
+      | .error e => .error e
+  | .compMember i k op =>
+    match st.live[i]? with
+    | none => .error .index
+    | some c =>
+      match compMember st.h c k op with
+      | .ok h' => .ok ⟨h', st.live⟩
+      | .error e => .error e
+  | .compMetaSet i k v =>
+    match st.live[i]? with
+    | none => .error .index
+    | some c =>
+      match compMetaSet st.h c k v with
+      | .ok h' => .ok ⟨h', st.live⟩
+      | .error e => .error e
+  | .epwNew ap dts db dp =>
+    match epwNew st.h ap dts db dp with
+    | .ok (h', r) => .ok ⟨h', st.live ++ [r]⟩
+    | .error e => .error e
+  | .epwConvert i t =>
+    match st.live[i]? with
+    | none => .error .index
+    | some c =>
+      match epwConvert st.h c t with
+      | .ok h' => .ok ⟨h', st.live⟩
+      | .error e => .error e
+  | .epwToFileString i =>
+    match st.live[i]? with
+    | none => .error .index
+    | some c =>
+      match epwToFileString st.h c with
+      | .ok (_, h') => .ok ⟨h', st.live⟩
+      | .error e => .error e
+  | .epwToWea i hoys =>
+    match st.live[i]? with
+    | none => .error .index
+    | some c =>
+      match epwToWea st.h c hoys with
+      | .ok (_, h') => .ok ⟨h', st.live⟩
+      | .error e => .error e
+  | .epwSky i ap dts vals =>
+    match st.live[i]? with
+    | none => .error .index
+    | some c =>
+      match epwSky st.h c ap dts vals with
+      | .ok (h', r) => .ok ⟨h', st.live ++ [r]⟩
+      | .error e => .error e
+
+/-- The machine with outputs: new state and what the caller sees (`none`: answered, `some e`: refused). -/
+def stepOut (st : St) (s : Step) : St × Option Err :=
+  match stepExec st s with
+  | .ok st' => (st', none)
+  | .error e => (st, some e)
+
+/-- `step` (the machine of `C14_noninterference`) is the state component of `stepOut`. -/
+theorem step_eq_stepOut (st : St) (s : Step) : step st s = (stepOut st s).1 := by
+  cases s <;> simp only [step, stepOut, stepExec] <;> (repeat' (first | rfl | split)) <;>
+    (first | rfl | simp_all)
+
+/-- **A refused step preserves everything.**  When a step of a history is refused (the call raises: bad
+    unit, wrong length, index out of range, immutable target, misaligned operands, a non-existent object
+    ...), the state after it IS the state before it – heap and list of live objects – so every live
+    object (the target, the arguments, everything else) reports exactly what it reported before. -/
+theorem C14_refused_preserves (st : St) (s : Step) (e : Err) (hr : (stepOut st s).2 = some e) :
+    step st s = st ∧ ∀ b, obsA (step st s).h b = obsA st.h b := by
+  have : step st s = st := by
+    rw [step_eq_stepOut]
+    unfold stepOut at hr ⊢
+    split at hr
+    · cases hr
+    · rename_i e' he
+      simp [he]
+  exact ⟨this, fun b => by rw [this]⟩
+
+/-- Reading steps: they build or derive objects and edit nothing in place. -/
+def Step.isRead : Step → Bool
+  | .mutate .. | .listMut .. | .compMember .. | .compMetaSet .. | .epwConvert .. | .epwToFileString ..
+  | .epwToWea .. => false
+  | _ => true
+
+theorem isRead_touches {s : Step} (hs : s.isRead = true) (j : Nat) : s.touches j = false := by
+  cases s <;> simp_all [Step.isRead, Step.touches]
+
+/-- **Reads are pure, in any order and any number.**  Any sequence of reading steps (every deriving
+    operation, WindRose / Wea / EPW constructions, Wea filters and derived collections,
+    `sky_temperature`, sources and caller's lists being created), each answered or refused, leaves
+    every object that was live before reporting exactly what it reported; hence two different such
+    sequences (another order, repetitions, more or fewer questions) leave the same reports. -/
+theorem C14_read_pure (st : St) (g : Good st) (l₁ l₂ : List Step)
+    (h₁ : ∀ s ∈ l₁, s.isRead = true) (h₂ : ∀ s ∈ l₂, s.isRead = true) (j b : Nat)
+    (hj : st.live[j]? = some b) :
+    obsA (run st l₁).h b = obsA st.h b ∧ obsA (run st l₁).h b = obsA (run st l₂).h b := by
+  have e₁ := (C14_noninterference l₁ st g).2 j b hj (fun s hs => isRead_touches (h₁ s hs) j)
+  have e₂ := (C14_noninterference l₂ st g).2 j b hj (fun s hs => isRead_touches (h₂ s hs) j)
+  exact ⟨e₁, e₁.trans e₂.symm⟩
+
+/-- **What an object reports is a function of its own public state, not of the history (partial).**
+    Take any two histories from the same separated state – different orders, repetitions of the same
+    question, answers of earlier questions edited in between, refused steps, other objects converted or
+    culled – neither of which edits object `j` in place.  Then `j` reports the same after both, namely
+    what a history-free (fresh) `j` reports.  The model has no slot in which an earlier answer could be
+    kept: each answered deriving step allocates its result from the CURRENT cells of its sources
+    (`derive`, `weaDerived`, `epwSky` are functions of the heap and the arguments only).
+    Missing for the full statement `C14_history_refines_fresh`: that the *result* of a deriving step
+    asked again observes like the first result (congruence of `specOf` in the observation of its
+    sources, for all 25 operations); the harness checks that clause on the real objects (`again`). -/
+theorem C14_history_refines_fresh_partial (st : St) (g : Good st) (l₁ l₂ : List Step) (j b : Nat)
+    (hj : st.live[j]? = some b) (t₁ : ∀ s ∈ l₁, s.touches j = false) (t₂ : ∀ s ∈ l₂, s.touches j = false) :
+    obsA (run st l₁).h b = obsA (run st []).h b ∧ obsA (run st l₁).h b = obsA (run st l₂).h b := by
+  have e₁ := (C14_noninterference l₁ st g).2 j b hj t₁
+  have e₂ := (C14_noninterference l₂ st g).2 j b hj t₂
+  exact ⟨e₁, e₁.trans e₂.symm⟩
+
+/-- Units and first values reported by the objects of a state. -/
+def unitsOf (st : St) : List (Option (Nat × List Rat)) :=
+  st.live.map fun c => (obs st.h c).map fun o => (o.unit, o.vals)
+
+/-- Non-vacuity ("asked again" in the model): a source; `duplicate()`; the duplicate converted to F and
+    overwritten; an `X`-unit conversion that is refused; `duplicate()` asked again.  The second answer
+    reads like the source (C, [5]), not like the edited first answer (F, [7]); the refused step reports
+    `value` and changes nothing. -/
+example :
+    let st3 := run ⟨Heap.empty, []⟩
+      [.build .hc true true 0 0 [1, 1, 0, 1, 1, 23, 1, 0] [(1, .tok "1"), (2, .lst ["1", "2"])] [0] [5],
+       .derive 0 .dup, .mutate 1 (.convUnit 1), .mutate 1 (.setItem 0 7)]
+    (stepOut st3 (.mutate 1 (.convUnit 3))).2 = some .value ∧
+    unitsOf (run st3 [.mutate 1 (.convUnit 3), .derive 0 .dup]) =
+      [some (0, [5]), some (1, [7]), some (0, [5])] := by decide +kernel
+
+/-- Non-vacuity of `C14_refused_preserves` on an immutable target: `imm[0] = 7` is refused (`attr`). -/
+example :
+    (stepOut ⟨(exSrc false).1, [(exSrc false).2]⟩ (.mutate 0 (.setItem 0 7))).2 = some .attr := by
+  decide +kernel
+
 end LbHeap
